@@ -182,6 +182,25 @@ Theorem C08_janitor_lru :
 Proof. exact janitor_lru_proof. Qed.
 Print Assumptions C08_janitor_lru.
 
+(* The type in the key: the model renders the query type as its decimal string for EVERY 16-bit value (however
+   the code caches some of them); the harness reads the production cacheKey for all 65536 types on every run and
+   the whole table is compared with this rendering in Coq.  C08_key_injective_partial / _scoped below quantify
+   over every type below 65536. *)
+Theorem C08_qtype_rendering :
+  forall q, (q < 65536)%N -> digits q <> [] /\ val (digits q) = q /\ Forall is_digit (digits q).
+Proof. exact qtype_rendering_proof. Qed.
+Print Assumptions C08_qtype_rendering.
+Theorem C08_qtype_rendering_injective :
+  forall a b, (a < 65536)%N -> (b < 65536)%N -> digits a = digits b -> a = b.
+Proof. exact digits_inj. Qed.
+Print Assumptions C08_qtype_rendering_injective.
+(* A rendering through a table indexed by type that is only bounds-checked (unfilled slots give an empty string;
+   NOT the code) does not determine the type: SOA (6) and HINFO (13) of one name share a key. *)
+Theorem C08_key_array_variant_refuted :
+  key_of_array kw_n1 6 ScNone = key_of_array kw_n1 13 ScNone.
+Proof. exact key_array_variant_refuted_proof. Qed.
+Print Assumptions C08_key_array_variant_refuted.
+
 (* What the LRU theorems order by is the instant of last use, across reloads: in every reachable cache - after any
    history with any number of reload clones and in-place reconfigurations - the lastAccess of the entry cached
    under a key is the instant of the most recent insert or lookup of that key (a lookup that is not answered
